@@ -201,6 +201,9 @@ type ReqSpec struct {
 	PrevPkix  []byte
 	Rewrapped []byte
 	RewrapKey string
+	// fields of the signed bundle that the library fills in or caches itself, but which a remote node can populate too
+	Id     string
+	Cached *types.WrappingRegistrationFlowInfo
 }
 
 func BuildFetch(sp ReqSpec) (*types.FetchNodeCredentialsRequest, *types.FetchNodeCredentialsInfo) {
@@ -214,6 +217,8 @@ func BuildFetch(sp ReqSpec) (*types.FetchNodeCredentialsRequest, *types.FetchNod
 		NotBefore:                        timestamppb.New(sp.NotBefore),
 		NotAfter:                         timestamppb.New(sp.NotAfter),
 		WrappedRegistrationInfo:          sp.Wrapped,
+		Id:                               sp.Id,
+		WrappingRegistrationFlowInfo:     sp.Cached,
 	}
 	b, _ := proto.Marshal(info)
 	return &types.FetchNodeCredentialsRequest{
